@@ -215,7 +215,13 @@ static void crystal_history(long hno, int maxlen, int builtin, const char *tmpdi
       f = fopen(path, "w"); if (!f) { fprintf(stderr, "histmon: cannot write %s\n", path); exit(2); }
       fprintf(f, "#F generated\n#UT test\n\n");
       for (k = 0; k < ncr; k++) write_crystal_file(f, &fc[k], k == badpos ? corrupt : 0, &r);   /* canonical layout: next "#S" follows the last atom line */
-      if (corrupt == 6) { long pos; fflush(f); pos = ftell(f); if (ftruncate(fileno(f), pos > 25 ? pos - 25 - (long)xv_below(&r, 20) : 0)) {} } else fprintf(f, "#EOF\n");
+      if (corrupt == 6) { long pos; fflush(f); pos = ftell(f); if (ftruncate(fileno(f), pos > 25 ? pos - 25 - (long)xv_below(&r, 20) : 0)) {} }
+      else switch (xv_below(&r, 6)) {                   /* how the file ends is not part of a definition: all of these are the same crystals */
+        case 0: case 1: fprintf(f, "#EOF\n"); break;
+        case 2: break;                                   /* the last atom line is the last line */
+        case 3: { long pos; fflush(f); pos = ftell(f); if (pos > 0 && ftruncate(fileno(f), pos - 1)) {} TR("nonl:"); } break;   /* ... and has no newline */
+        case 4: fprintf(f, "\n\n"); break;
+        default: fprintf(f, "#EOF"); break; }
       fclose(f);
       e = NULL; LAST("Crystal_ReadFile(%s) kind=%d corrupt=%d dup=%d n=%d", path, kind, corrupt, dup, ncr);
       TR("readfile(n=%d,corrupt=%d@%d,dup=%d);", ncr, corrupt, badpos, dup);
